@@ -120,6 +120,7 @@ def run(ctx, b, broken):
             "big-block": "void f(void){ " + " ".join(f"int l{i} = {i}; l{i}++;" for i in range(k)) + " }",
             "string-concat": "char *s = " + " ".join(f'"s{i}"' for i in range(4 * k)) + ";",
             "wstring-concat": "int *s = " + " ".join(f'L"w{i}"' for i in range(4 * k)) + ";",
+            "array-dims": "int a" + "[1]" * k + ";",
             "many-functions": " ".join(f"int f{i}(int a, char *b){{ return a + {i}; }}" for i in range(k)),
             "typedef-uses": "typedef int T; " + " ".join(f"T t{i}; T *p{i};" for i in range(k)),
             "call-args": "void f(void){ g(" + ", ".join(f"a{i}" for i in range(4 * k)) + "); }",
@@ -133,7 +134,7 @@ def run(ctx, b, broken):
         return json.loads(p.stdout) if p.returncode == 0 else [[-1.0, 0]] * len(texts)
     K = 1200 if ctx.tier == "quick" else 3000
     MULT = {"linemarkers": 8, "line-directives": 10, "pragmas": 10, "big-switch": 3, "switch-label-runs": 4, "big-struct": 4, "big-enum": 6, "big-initlist": 4,
-            "big-block": 4, "string-concat": 15, "wstring-concat": 15, "many-functions": 2, "typedef-uses": 4, "call-args": 5, "else-if-chain": 1}
+            "big-block": 4, "string-concat": 15, "wstring-concat": 15, "many-functions": 2, "array-dims": 2, "typedef-uses": 4, "call-args": 5, "else-if-chain": 1}
     names = list(timed(4))
     small = {n_: timed(K * MULT[n_])[n_] for n_ in names}
     large = {n_: timed(2 * K * MULT[n_])[n_] for n_ in names}
@@ -148,8 +149,12 @@ def run(ctx, b, broken):
         if a < 0 or b_ < 0:
             su.violation(small[name][:300], f"timed family {name} is not accepted")
             continue
+        kf = [f for f in ctx.findings if f.get("timedfamily") == name]
         # deterministic: the number of function calls (Python and C level) the parse makes
         if ca > 1000 and cb > 2.4 * ca:
+            if kf:
+                ctx.known(kf[0]["id"], kf[0]["what"])
+                continue
             su.violation(large[name][:300] + " ...", f"family {name}: the number of function calls grows from {ca} (k={K * MULT[name]}) to {cb} (k={2 * K * MULT[name]}), ratio {cb / ca:.2f}: more than doubling (limit 2.4)", {"family": name, "k": K})
             continue
         ratio = b_ / max(a, 0.02)
@@ -158,7 +163,9 @@ def run(ctx, b, broken):
                 (a2, _c1), (b2, _c2) = cpu_times([small[name], large[name]])
                 if a2 > 0 and b2 > 0:
                     ratio = min(ratio, b2 / max(a2, 0.02))
-        if ratio > 3.0 and b_ > 0.3:
+        if ratio > 3.0 and b_ > 0.3 and kf:
+            ctx.known(kf[0]["id"], kf[0]["what"])
+        elif ratio > 3.0 and b_ > 0.3:
             su.violation(large[name][:300] + " ...", f"family {name}: CPU time grows from {a:.2f}s (k={K * MULT[name]}) to {b_:.2f}s (k={2 * K * MULT[name]}), ratio {ratio:.1f}: more than doubling (limit 3.0)", {"family": name, "k": K})
     # lexer regex families (wall clock, wide margin)
     from lexcorr import impl_lex
